@@ -188,6 +188,10 @@ fn atoms_for(tree: &N) -> Vec<Atom> {
             for p in 0..=n.kids.len() {
                 v.push(Atom::Comment(*site, p));
             }
+        } else if n.text.as_deref().map_or(true, str::is_empty) && n.name != "data" {
+            // a comment as the only content of an empty element: <ok><!-- note --></ok>
+            // (not inside <data>: its content is the caller's payload, handed over verbatim)
+            v.push(Atom::Comment(*site, 0));
         }
         let nattrs = n.attrs.len() + usize::from(*site == 0);
         if nattrs >= 2 {
@@ -214,6 +218,9 @@ fn atom_label(a: &Atom, tree: &N) -> String {
     let name = |s: usize| sites.get(s).map_or("?".to_string(), |(_, n, _)| n.name.clone());
     let parent_child = |s: usize, p: usize| {
         let n = sites[s].1;
+        if n.kids.is_empty() {
+            return format!("{}:as-only-content", n.name);
+        }
         let before = if p < n.kids.len() { n.kids[p].name.as_str() } else { "(end)" };
         format!("{}:before-{}", n.name, before)
     };
@@ -458,7 +465,29 @@ pub fn run_c13(cfg: &Cfg) -> i32 {
 fn mutate(r: &mut Prng, input: &[u8], other: &[u8]) -> (Vec<u8>, &'static str) {
     let mut v = input.to_vec();
     let len = v.len().max(1);
-    match r.below(16) {
+    match r.below(17) {
+        16 => {
+            // a run of multi-byte characters (valid UTF-8) of arbitrary length inside element
+            // content, at an arbitrary byte alignment: puts character boundaries off every
+            // power-of-two offset a size-limited copy, log excerpt or buffer might cut at
+            let s = String::from_utf8_lossy(&v).into_owned();
+            let gts: Vec<usize> = s.match_indices('>').map(|(i, _)| i).collect();
+            if gts.len() >= 2 {
+                let at = gts[r.below(gts.len() - 1)] + 1;
+                let mut run = "x".repeat(r.below(4));
+                let target = if cfg!(miri) { r.range(10, 200) } else { *r.pick(&[30usize, 300, 1_100, 2_200, 4_300, 9_000, 17_000, 66_000]) + r.below(64) };
+                let alphabet = ["\u{e9}", "\u{df}\u{20ac}", "\u{65e5}\u{672c}", "\u{1f600}", "a\u{e9}", "\u{20ac}"];
+                let unit = alphabet[r.below(alphabet.len())];
+                while run.len() < target {
+                    run.push_str(unit);
+                }
+                let mut o = s[..at].to_string();
+                o.push_str(&run);
+                o.push_str(&s[at..]);
+                return (o.into_bytes(), "multibyte-run");
+            }
+            (v, "multibyte-run")
+        }
         0 => {
             v.truncate(r.below(len));
             (v, "truncate")
